@@ -157,10 +157,11 @@ class ModelRaised(NotConst):
 STR_METHODS = {"startswith", "endswith", "rstrip", "lstrip", "strip", "count", "find", "rfind", "replace", "isdigit", "splitlines",
                "rsplit", "partition", "rpartition", "index", "capitalize", "title", "isalnum", "isalpha", "translate", "removeprefix",
                "removesuffix", "isspace", "islower", "isupper", "zfill", "ljust", "rjust", "center", "hex", "tobytes", "format", "swapcase", "casefold",
-               "expandtabs"}
+               "expandtabs", "encode", "decode", "join", "lower", "upper", "split"}
 
 
 import collections as _collections
+import re as _re
 
 _CONTAINERS = (list, dict, set, bytearray, _collections.deque, tuple, frozenset)
 CONTAINER_METHODS = {"append", "extend", "insert", "pop", "get", "items", "keys", "values", "update", "add", "setdefault", "copy", "index", "count",
@@ -172,6 +173,27 @@ def _eval_any(node, env, funcs):
         return const_eval(node, env)
     except NotConst:
         return const_eval(_fold(node, env, funcs), env)
+
+
+def _fstring(node, env, funcs):
+    out = ""
+    for v in node.values:
+        if isinstance(v, ast.Constant):
+            out += str(v.value)
+        else:
+            val = _eval_any(v.value, env, funcs)
+            if v.conversion == ord("r"):
+                val = repr(val)
+            elif v.conversion == ord("s"):
+                val = str(val)
+            elif v.conversion == ord("a"):
+                val = ascii(val)
+            spec = _fstring(v.format_spec, env, funcs) if v.format_spec is not None else ""
+            try:
+                out += format(val, spec)
+            except Exception as ex:
+                raise ModelRaised(type(ex).__name__, str(ex))
+    return out
 
 
 def _bind_target(t, v, env):
@@ -212,6 +234,9 @@ def _comprehension(node, env, funcs):
     return out
 
 
+_FOLDABLE: Dict[int, tuple] = {}
+
+
 def _fold(node, env, funcs):
     """Copy of ``node`` in which calls of pure str/bytes methods (STR_METHODS) and of the named pure
     functions in ``funcs`` whose receiver/arguments are evaluable are replaced by their value."""
@@ -219,6 +244,19 @@ def _fold(node, env, funcs):
         return [_fold(x, env, funcs) for x in node]
     if not isinstance(node, ast.AST):
         return node
+    hit = _FOLDABLE.get(id(node))
+    if hit is None or hit[0] is not node:
+        hit = (node, any(isinstance(x, (ast.Call, ast.Attribute, ast.JoinedStr, ast.ListComp, ast.SetComp, ast.GeneratorExp, ast.DictComp)) for x in ast.walk(node)))
+        _FOLDABLE[id(node)] = hit
+    if not hit[1]:
+        return node          # nothing to fold below: share the (never mutated) node
+    if isinstance(node, ast.JoinedStr):
+        try:
+            return ast.Constant(value=_fstring(node, env, funcs))
+        except NotConst:
+            pass
+    if isinstance(node, ast.Attribute) and isinstance(node.value, ast.Name) and env.get(node.value.id) in (str, bytes) and node.attr in STR_METHODS | {"join", "encode", "decode", "lower", "upper", "split"}:
+        return ast.Constant(value=getattr(env[node.value.id], node.attr))      # unbound pure method, e.g. map(bytes.strip, ...)
     if isinstance(node, (ast.ListComp, ast.SetComp, ast.GeneratorExp, ast.DictComp)):
         try:
             return ast.Constant(value=_comprehension(node, env, funcs))
@@ -235,28 +273,52 @@ def _fold(node, env, funcs):
             recv = None
         if getattr(recv, "_sa_model", False) and hasattr(recv, new.attr) and not callable(getattr(recv, new.attr)):
             return ast.Constant(value=getattr(recv, new.attr))   # data attribute of a checker-supplied model object
-    if isinstance(new, ast.Call) and not new.keywords:
+    if isinstance(new, ast.Call):
         try:
             callee = dotted(node.func)
+
+            def actuals():
+                args = []
+                for a_ in new.args:
+                    if isinstance(a_, ast.Starred):
+                        args.extend(list(const_eval(a_.value, env)))
+                    else:
+                        args.append(const_eval(a_, env))
+                kw = {}
+                for k_ in new.keywords:
+                    if k_.arg is None:
+                        kw.update(dict(const_eval(k_.value, env)))
+                    else:
+                        kw[k_.arg] = const_eval(k_.value, env)
+                return args, kw
             if callee is not None and callee in funcs:
-                args = [const_eval(a, env) for a in new.args]
-                return ast.Constant(value=funcs[callee](*args))
+                args, kw = actuals()
+                return ast.Constant(value=funcs[callee](*args, **kw))
             if isinstance(new.func, ast.Attribute):
                 try:
                     recv = const_eval(new.func.value, env)
                 except NotConst:
                     recv = None
-                if isinstance(recv, (str, bytes)) and new.func.attr in STR_METHODS:
-                    args = [const_eval(a, env) for a in new.args]
-                    return ast.Constant(value=getattr(recv, new.func.attr)(*args))
+                if isinstance(recv, (str, bytes, bytearray)) and new.func.attr in STR_METHODS:
+                    args, kw = actuals()
+                    return ast.Constant(value=getattr(recv, new.func.attr)(*args, **kw))
                 if isinstance(recv, _CONTAINERS) and new.func.attr in CONTAINER_METHODS:
                     # a container created by the interpreted function itself (never a repository object)
-                    args = [const_eval(a, env) for a in new.args]
-                    return ast.Constant(value=getattr(recv, new.func.attr)(*args))
+                    args, kw = actuals()
+                    return ast.Constant(value=getattr(recv, new.func.attr)(*args, **kw))
+                if isinstance(recv, _re.Pattern) and new.func.attr in ("sub", "subn", "match", "search", "fullmatch", "split", "findall"):
+                    # a module/class-level compiled pattern with a constant source: delegate to CPython's re
+                    args, kw = actuals()
+                    return ast.Constant(value=getattr(recv, new.func.attr)(*args, **kw))
+                if isinstance(recv, _re.Match) and new.func.attr in ("group", "groups", "start", "end", "span", "groupdict"):
+                    args, kw = actuals()
+                    return ast.Constant(value=getattr(recv, new.func.attr)(*args, **kw))
                 if getattr(recv, "_sa_model", False) and not new.func.attr.startswith("_"):
                     # a checker-supplied model object standing for a repository object (e.g. a queue)
-                    args = [const_eval(a, env) for a in new.args]
-                    return ast.Constant(value=getattr(recv, new.func.attr)(*args))
+                    args, kw = actuals()
+                    return ast.Constant(value=getattr(recv, new.func.attr)(*args, **kw))
+        except ModelRaised:
+            raise
         except NotConst:
             pass
         except Exception as ex:  # e.g. TypeError mixing str/bytes: the repository expression itself would raise
@@ -408,7 +470,11 @@ OS_FUNCS["os.fsdecode"] = lambda p: p.decode("utf-8") if isinstance(p, bytes) el
 
 BUILTIN_FUNCS = {"isinstance": isinstance, "abs": abs, "bool": bool, "sum": sum, "any": any, "all": all, "divmod": divmod, "reversed": lambda x: list(reversed(x)),
                  "enumerate": lambda x, *a: list(enumerate(x, *a)), "zip": lambda *a: list(zip(*a)), "repr": repr, "memoryview": memoryview, "hex": hex,
-                 "iter": iter, "next": next, "type": type, "round": round, "float": float, "slice": slice}
+                 "iter": iter, "next": next, "type": type, "round": round, "float": float, "slice": slice,
+                 # these are also known to the plain evaluator, which however loses the exception type: here a failure becomes the modelled exception
+                 "int": int, "sorted": sorted, "min": min, "max": max, "len": len, "list": list, "tuple": tuple, "dict": dict, "set": set, "str": str, "bytes": bytes,
+                 "map": lambda f, *its: [f(*a) for a in zip(*its)], "filter": lambda f, it: [x for x in it if (f(x) if f is not None else x)],
+                 "range": lambda *a: list(range(*a)), "ord": ord, "chr": chr}
 BUILTIN_NAMES = {"str": str, "bytes": bytes, "int": int, "bytearray": bytearray, "tuple": tuple, "list": list, "dict": dict, "set": set, "frozenset": frozenset,
                  "float": float, "bool": bool, "object": object, "memoryview": memoryview}
 
@@ -446,7 +512,7 @@ def _exc_matches(raised: str, handler: ast.ExceptHandler) -> bool:
 
 
 def interpret(func, args: Dict[str, object], mapping: Optional[Dict[str, object]] = None, max_steps: int = 20000, funcs: Optional[dict] = None,
-              nested_call=lambda *a: None):
+              nested_call=lambda *a: None, state: Optional[dict] = None):
     """Finite-domain evaluation of a *pure* repository function with the whitelisted evaluator (no
     repository code runs): Assign (names, tuples, attributes, subscripts) / AugAssign / If / For / While /
     Break / Continue / Try / Return / Raise / Assert / Pass / docstring.  The expressions listed in
@@ -456,7 +522,9 @@ def interpret(func, args: Dict[str, object], mapping: Optional[Dict[str, object]
     outside this subset is an InterpError (the caller turns it into an analysis error in its own section)."""
     env = dict(BUILTIN_NAMES)
     env.update(args)
-    mp = dict(OS_MAPPING)
+    mp = state if state is not None else {}      # ``state``: caller-owned store that receives attribute / subscript assignments
+    for k_, v_ in OS_MAPPING.items():
+        mp.setdefault(k_, v_)
     mp.update(mapping or {})
     fs = dict(BUILTIN_FUNCS)
     fs.update(OS_FUNCS)
@@ -591,6 +659,27 @@ def interpret(func, args: Dict[str, object], mapping: Optional[Dict[str, object]
                     raise _Raised(current[-1] if current else "RuntimeError")
                 e = st.exc.func if isinstance(st.exc, ast.Call) else st.exc
                 raise _Raised(dotted(e) or src(e))
+            elif isinstance(st, ast.Delete):
+                for t in st.targets:
+                    if isinstance(t, ast.Name):
+                        env.pop(t.id, None)
+                    elif isinstance(t, ast.Attribute):
+                        mp.pop(src(t), None)
+                    elif isinstance(t, ast.Subscript):
+                        box = ev(t.value)
+                        if not isinstance(box, (list, dict, bytearray, _collections.deque)):
+                            raise InterpError(f"del on a value that is not a local container: {src(t)}")
+                        try:
+                            if isinstance(t.slice, ast.Slice):
+                                lo = ev(t.slice.lower) if t.slice.lower is not None else None
+                                hi = ev(t.slice.upper) if t.slice.upper is not None else None
+                                del box[lo:hi]
+                            else:
+                                del box[ev(t.slice)]
+                        except (KeyError, IndexError) as ex:
+                            raise _Raised(type(ex).__name__)
+                    else:
+                        raise InterpError(f"del target not modelled: {src(t)}")
             elif isinstance(st, (ast.FunctionDef, ast.AsyncFunctionDef)):
                 # a nested function is only passed around as a callback; calling it is modelled by the caller's ``funcs`` (default: opaque result)
                 env[st.name] = f"<function {st.name}>"
@@ -606,3 +695,49 @@ def interpret(func, args: Dict[str, object], mapping: Optional[Dict[str, object]
     except (_Break, _Continue):
         raise InterpError("break/continue outside a loop")
     return r if r is not None else ("return", None)
+
+
+def module_patterns(mod) -> Dict[str, object]:
+    """{name: compiled pattern} for module-level ``NAME = re.compile(<constant>[, <constant flags>])`` assignments."""
+    out = {}
+    for st in mod.tree.body:
+        if isinstance(st, ast.Assign) and len(st.targets) == 1 and isinstance(st.targets[0], ast.Name) and isinstance(st.value, ast.Call) and \
+                dotted(st.value.func) in ("re.compile", "compile"):
+            try:
+                args = [const_eval(a, {"re.I": _re.I}) for a in st.value.args]
+                if not st.value.keywords and isinstance(args[0], (str, bytes)):
+                    out[st.targets[0].id] = _re.compile(*args)
+            except (NotConst, _re.error, IndexError):
+                pass
+    return out
+
+
+def call_repo(fn, args, kwargs=None, selfobj=None, mapping=None, funcs=None, env=None, nested_call=lambda *a: None, state=None):
+    """Call a repository function by interpreting it: positional/keyword arguments and constant defaults are bound to its
+    parameters.  Returns the value; a raise becomes ModelRaised(name) so that an interpreting caller sees the same exception."""
+    kwargs = dict(kwargs or {})
+    a = fn.args
+    params = [x.arg for x in list(a.posonlyargs) + list(a.args)]
+    defaults = dict(zip(params[len(params) - len(a.defaults):], a.defaults))
+    bound = dict(env or {})
+    actual = list(args)
+    if params and params[0] in ("self", "cls"):
+        bound[params[0]] = selfobj
+        params = params[1:]
+    for i, pname in enumerate(params):
+        if i < len(actual):
+            bound[pname] = actual[i]
+        elif pname in kwargs:
+            bound[pname] = kwargs.pop(pname)
+        elif pname in defaults:
+            bound[pname] = const_eval(defaults[pname], dict(BUILTIN_NAMES))
+        else:
+            raise ModelRaised("TypeError", f"missing argument {pname}")
+    if a.vararg is not None:
+        bound[a.vararg.arg] = tuple(actual[len(params):])
+    for kw_, d_ in zip(a.kwonlyargs, a.kw_defaults):
+        bound[kw_.arg] = kwargs.pop(kw_.arg) if kw_.arg in kwargs else (const_eval(d_, dict(BUILTIN_NAMES)) if d_ is not None else None)
+    kind, val = interpret(fn, bound, mapping, funcs=funcs, nested_call=nested_call, state=state)
+    if kind == "raise":
+        raise ModelRaised(val.split(".")[-1], "raised by " + getattr(fn, "name", "?"))
+    return val
